@@ -301,6 +301,9 @@ func runIndexFloats(x *idxCtx, n int) {
 					}
 					d, dIntact := inArray(vals, off)
 					inds := make([]int, n+2)
+					for i := range inds[:n] {
+						inds[i] = -5 - i // dirty: Argsort must overwrite, not rely on zeroed storage
+					}
 					inds[n], inds[n+1] = -77, -78
 					msg, pan := tryPanics(func() { f(d, inds[:n]) })
 					ev(name)
@@ -938,6 +941,9 @@ func runIndexCmplxs(x *idxCtx, n int) {
 		}
 		rp := map[string]any{"n": n, "l": l, "u": u}
 		dst := make([]complex128, n)
+		for i := range dst {
+			dst[i] = complex(vrt.Taint(i), -77) // dirty destination
+		}
 		_, pan := tryPanics(func() { cmplxs.Span(dst, l, u) })
 		x.t.eval("cmplxs.Span|finite|"+nClass(n), n >= 2)
 		if n < 2 {
@@ -968,6 +974,9 @@ func runIndexCmplxs(x *idxCtx, n int) {
 		// LogSpan: exp of equally spaced points between Log(l) and Log(u)
 		if l != 0 && u != 0 {
 			ld := make([]complex128, n)
+			for i := range ld {
+				ld[i] = complex(-33, vrt.Taint(i)) // dirty destination
+			}
 			cmplxs.LogSpan(ld, l, u)
 			x.t.eval("cmplxs.LogSpan|finite|"+nClass(n), true)
 			la, lb := cmplx.Log(l), cmplx.Log(u)
